@@ -124,6 +124,12 @@ class SocketPort(BaseIOPort):
             raise OSError(err.args[1]) from err
 
     def _close(self):
+        # The file objects made from the socket keep its descriptor open:
+        # close them as well, so that the other end sees the disconnect.
+        for name in ('_rfile', '_wfile'):
+            file = getattr(self, name, None)
+            if file is not None:
+                file.close()
         self._socket.close()
 
 
